@@ -19,6 +19,18 @@ FUNCS = {"LOG": lambda x: math.log(x) if x > 0 else (-math.inf if x == 0 else ma
          "SQRT": lambda x: math.sqrt(x) if x >= 0 else math.nan,
          "LOGIT": _logit, "F32": _f32}
 
+def _close(a, b):
+    if isinstance(a, float) or isinstance(b, float):
+        if isinstance(a, bool) or isinstance(b, bool):
+            return a == b
+        if math.isnan(a) or math.isnan(b):
+            return False
+        if math.isinf(a) or math.isinf(b):
+            return a == b
+        return abs(a - b) <= 1e-9 + 1e-7 * max(abs(a), abs(b))
+    return a == b
+
+
 def evaluate(e, env, cache=None):
     if cache is None: cache = {}
     key = e.get_id()
@@ -49,7 +61,7 @@ def evaluate(e, env, cache=None):
         elif k == z3.Z3_OP_ITE:
             c = evaluate(ch[0], env, cache)
             r = evaluate(ch[1] if c else ch[2], env, cache)
-        elif k == z3.Z3_OP_EQ: r = a[0] == a[1]
+        elif k == z3.Z3_OP_EQ: r = _close(a[0], a[1])
         elif k == z3.Z3_OP_DISTINCT: r = len(set(a)) == len(a)
         elif k == z3.Z3_OP_LE: r = a[0] <= a[1]
         elif k == z3.Z3_OP_LT: r = a[0] < a[1]
